@@ -103,11 +103,17 @@ func (l *ledger) scan(fn *ssa.Function) {
 				return getBR().indexInRange(x, x.X, x.Index)
 			}
 		case *ssa.Index:
-			if _, isArr := x.X.Type().Underlying().(*types.Array); isArr {
+			// arrays, and strings: x/tools v0.29 represents s[i] on a string as Index (Lookup is for maps)
+			if _, isArr := x.X.Type().Underlying().(*types.Array); isArr || isStringLike(x.X.Type()) {
 				kind = "index"
 				what = describe(x)
 				shape = shapeOf(x.X) + "[" + shapeOf(x.Index) + "]"
-				check = func() (bool, string) { return getBR().indexInRange(x, x.X, x.Index) }
+				check = func() (bool, string) {
+					if ok, why := literalStringElemIndex(x); ok {
+						return true, why
+					}
+					return getBR().indexInRange(x, x.X, x.Index)
+				}
 			}
 		case *ssa.Lookup:
 			if isStringLike(x.X.Type()) {
@@ -189,7 +195,9 @@ func (l *ledger) scan(fn *ssa.Function) {
 			l.r.OK(rule, pos, name, kind+": "+what, why)
 			return
 		}
-		if isGov && (kind == "index" || kind == "slice" || kind == "make") {
+		// the invariants govern the program tables (node vectors, operand stack, index tables), never text: a string that is
+		// indexed or cut in one of these functions is data (a label, a rendered value) and needs its own proof
+		if isGov && (kind == "index" || kind == "slice" || kind == "make") && !stringBased(in) {
 			l.counts["invariant-governed"]++
 			l.r.Undecided(rule, pos, name, kind+": "+what, "invariant-governed ("+gov+"); "+why)
 			return
@@ -203,6 +211,98 @@ func (l *ledger) scan(fn *ssa.Function) {
 		l.counts["violated"]++
 		l.r.Fail(rule, pos, name, kind+": "+what, "input-facing site with no proof that it cannot panic ("+why+"); shape "+shape)
 	})
+}
+
+// literalStringElemIndex: pair[k] with a constant k where pair is an element of a slice literal whose elements are all
+// constant strings longer than k (`for _, pair := range []string{"[]", "()"} { pair[0] … pair[1] }`).
+func literalStringElemIndex(x *ssa.Index) (bool, string) {
+	k, ok := constInt(x.Index)
+	if !ok || k < 0 || !isStringLike(x.X.Type()) {
+		return false, ""
+	}
+	addr, ok := isLoad(x.X)
+	if !ok {
+		return false, ""
+	}
+	ia, ok := addr.(*ssa.IndexAddr)
+	if !ok {
+		return false, ""
+	}
+	sl, ok := ia.X.(*ssa.Slice)
+	if !ok || sl.Low != nil || sl.High != nil {
+		return false, ""
+	}
+	al, ok := sl.X.(*ssa.Alloc)
+	if !ok {
+		return false, ""
+	}
+	n, ok := constLenOf(deref(al.Type()))
+	if !ok {
+		return false, ""
+	}
+	// the array behind the literal: only element stores of constant strings and the one slicing
+	set := map[int64]bool{}
+	for _, ref := range referrers(al) {
+		switch r := ref.(type) {
+		case *ssa.Slice:
+			if r != sl {
+				return false, ""
+			}
+		case *ssa.IndexAddr:
+			idx, okc := constInt(r.Index)
+			if !okc {
+				return false, ""
+			}
+			for _, rr := range referrers(r) {
+				st, isSt := rr.(*ssa.Store)
+				if !isSt || st.Addr != ssa.Value(r) {
+					return false, ""
+				}
+				str, isStr := constString(st.Val)
+				if !isStr || int64(len(str)) <= k {
+					return false, ""
+				}
+				set[idx] = true
+			}
+		default:
+			return false, ""
+		}
+	}
+	// the slice itself is only ranged over / indexed (never written through)
+	for _, ref := range referrers(sl) {
+		switch r := ref.(type) {
+		case *ssa.IndexAddr:
+			for _, rr := range referrers(r) {
+				if st, isSt := rr.(*ssa.Store); isSt && st.Addr == ssa.Value(r) {
+					return false, ""
+				}
+			}
+		case *ssa.Call:
+			if b, isB := r.Call.Value.(*ssa.Builtin); !isB || b.Name() != "len" {
+				return false, ""
+			}
+		case *ssa.DebugRef:
+		default:
+			return false, ""
+		}
+	}
+	if int64(len(set)) != int64(n) {
+		return false, ""
+	}
+	return true, fmt.Sprintf("element of a slice literal whose %d elements are all constant strings longer than %d", n, k)
+}
+
+// stringBased: the instruction indexes or slices a string.
+func stringBased(in ssa.Instruction) bool {
+	switch x := in.(type) {
+	case *ssa.Lookup:
+		return isStringLike(x.X.Type())
+	case *ssa.Index:
+		return isStringLike(x.X.Type())
+	case *ssa.Slice:
+		return isStringLike(x.X.Type())
+	}
+	return false
 }
 
 // plainShape strips the markers around local names (for messages).
